@@ -11,7 +11,7 @@ from .. import world as W
 from . import _ws
 
 ID = 'C19'
-TIERS = {'quick': {'seeds': 9000, 'seconds': 75, 'determinism': 24},
+TIERS = {'quick': {'seeds': 9000, 'seconds': 45, 'determinism': 24},
          'thorough': {'seconds': 900, 'determinism': 128, 'minimise_s': 120}}
 RULE = ('sequential runs in which test phases start REAL threads (threading.Thread or '
         '_thread.start_new_thread; named/unnamed; matching or not matching --ignore-new-thread) '
